@@ -309,6 +309,7 @@ impl Manifest {
 
     /// Rollover the log.
     pub fn rollover(&mut self) -> Result<(), SError> {
+        self.check_poison()?;
         let edit = Self::to_edit(&self.strs, &self.info);
         let next_id = self.last_rollover;
         self.last_rollover += 1;
@@ -425,6 +426,7 @@ impl Manifest {
     }
 
     fn _apply(&mut self, output: &PathBuf, edit: Edit, allow_rollover: bool) -> Result<(), SError> {
+        self.check_poison()?;
         let was_empty = self.strs.is_empty();
         let mut edit_str = String::new();
         Self::apply_edit(&edit, &mut self.strs, &mut self.info);
@@ -455,6 +457,15 @@ impl Manifest {
             }
         }
         Ok(())
+    }
+
+    // A failed write may have left part of an edit in the file, and the in-memory state no longer
+    // matches what is on disk:  nothing more may be written through this handle.
+    fn check_poison(&self) -> Result<(), SError> {
+        match &self.poison {
+            Some(err) => Err(err.clone()),
+            None => Ok(()),
+        }
     }
 
     fn poison<T, E>(&mut self, res: Result<T, E>) -> Result<T, SError>
